@@ -290,8 +290,26 @@ func runC15(c *Ctx, idx int, o *Obs) {
 			if r.Intn(2) == 0 {
 				t.ReinitIndexes()
 			}
+			indexed := false
+			if _, err := t.TipIndex(t.Tips()[0].Name()); err == nil {
+				indexed = true
+			}
 			cl := t.Clone()
 			o.Ev("Clone", 1)
+			if indexed {
+				// the copy of an indexed tree answers name look-ups with ITS OWN nodes
+				own := map[*tree.Node]bool{}
+				for _, nd := range cl.Tips() {
+					own[nd] = true
+				}
+				for _, nd := range cl.Tips() {
+					got, err := cl.TipNode(nd.Name())
+					if !o.Check(err == nil && own[got] && got == nd, "clone_index_points_elsewhere",
+						fmt.Sprintf("clone.TipNode(%q) does not return the clone's own tip (err %v)", nd.Name(), err), t.Newick()) {
+						break
+					}
+				}
+			}
 			o.Check(cl.Newick() == t.Newick(), "clone_text_differs", fmt.Sprintf("clone writes %q", Trunc(cl.Newick(), 600)), t.Newick())
 			checkStructure(o, cl, "Clone of "+Trunc(text, 300))
 			d := ref.Diff(modelOf(t).Root, modelOf(cl).Root, "root", true)
@@ -335,6 +353,10 @@ func runC15(c *Ctx, idx int, o *Obs) {
 		}
 		o.Class = "independence/" + kind
 		h := &hist{r: r, t: edited}
+		if tp := edited.Tips(); len(tp) > 0 {
+			_, err := edited.TipIndex(tp[0].Name())
+			h.indexFresh = err == nil // a twin of an indexed tree is used as handed over
+		}
 		wText := watched.Newick()
 		wModel := modelOf(watched)
 		steps := 4 + r.Intn(12)
